@@ -1,9 +1,10 @@
 (** C03 — update: coherent new trace, weight = density ratio (also across a
-    Cond flip).  The value-frame / discard / round-trip clauses are checked by
-    the correspondence (Model/Corr.v:upd_spec) and stated here as
-    [C03_frame_full]; their mechanised proof is not complete (partial). *)
+    Cond flip).  The value-frame clause is proved for Cond-free programs
+    (C03_update_frame) and refuted for Cond flips (C03_frame_full_refuted, K1); the
+    discard / round-trip clauses are checked by the correspondence
+    (Model/Corr.v:upd_spec) only (partial). *)
 From GV Require Import Model.Gfi Model.Spec Model.Ast Model.Corr
-     Lemmas.CmLemmas Lemmas.GfiCoh Lemmas.GfiUpd.
+     Lemmas.CmLemmas Lemmas.GfiCoh Lemmas.GfiUpd Lemmas.Law Lemmas.GfiFrame.
 
 (** The updated trace is coherent under the new arguments: for every program,
     every old trace, every constraint and every new argument value. *)
@@ -103,3 +104,14 @@ Proof.
     vm_compute. repeat split; auto; discriminate.
   - vm_compute in E. inversion E; subst. vm_compute in U. discriminate.
 Qed.
+
+(** Frame (Cond-free programs: any nesting of distributions, @gen functions, Vmap and Scan):
+    every leaf of the updated trace's choice map is the constraint's value at that path or,
+    where the constraint does not reach, the old trace's value - nothing else changes. *)
+Theorem C03_update_frame :
+  forall g, NC g ->
+  forall t x args t' w d, gf_update g t (Some x) args = Ok (t', w, d) ->
+    forall p v, leaf_at (choices t') p v ->
+      leaf_at x p v \/ (cm_at x p = None /\ leaf_at (choices t) p v).
+Proof. intros g Hg t x args t' w d H. exact (update_framed g Hg t x args t' w d H). Qed.
+Print Assumptions C03_update_frame.
